@@ -82,6 +82,10 @@ SOLVENTS = ['Water', 'Ethanol', 'Methanol', 'Toluene']
 METHODS = ['pseudo equilibrium', 'shgo', 'differential evolution']
 MTAG = {'pseudo equilibrium': 'pseudo-equilibrium', 'shgo': 'shgo', 'differential evolution': 'differential-evolution'}
 DEF_TOLT, DEF_TOLZ = 1e-3, 1e-5
+# largest relative activity mismatch the listed optimiser-quality entries cover (about 1.35 x the largest seen over
+# ~35 quick and 5 thorough runs: shgo binary 0.22, shgo >=3 chemicals 0.55, differential evolution >=3 chemicals 0.31)
+RESIDUAL_CAP = {('shgo', 'binary'): 0.40, ('shgo', 'multicomponent'): 0.75,
+                ('differential evolution', 'multicomponent'): 0.45}
 
 REC = {'on': False}
 STATS = []         # raw oracle numbers of this process (development aid; bounded)
@@ -92,7 +96,7 @@ def _stat(*a):
 
 
 def _rec_reset():
-    REC.update(on=True, gl=None, pf=[], solve=None, insolve=0, final=None, x=[])
+    REC.update(on=True, gl=None, pf=[], solve=None, insolve=0, final=None, x=[], sx=[])
 
 
 class _FlxProxy:
@@ -158,6 +162,12 @@ def setup():
             if REC['on']: REC['x'].append(float(x))
             return o_us(self, x, *a, **k)
         SLE._update_solubility = _update_solubility
+        o_sx = SLE._solve_x
+        def _solve_x(self, T):
+            r = o_sx(self, T)
+            if REC['on']: REC['sx'].append(float(r))
+            return r
+        SLE._solve_x = _solve_x
     # compile the numba kernels once, in the parent, so that forked workers inherit them
     for m in METHODS:
         s = tmo.Stream(None, Water=10, Octane=5, Ethanol=1, thermo=LTH)
@@ -612,6 +622,7 @@ def run_lle(case, model_in, outs, failures, tags):
             elif abs(T - pT) < eff_tolT: rel = 'other-composition'
             else: rel = 'other-T-and-composition'
         tags.append('history:' + rel)
+        if rel == 'other-chemicals' and len(prev[2]) == len(idx): tags.append('history:other-chemicals:same-count')
         if prev is not None and rel in ('lower-T', 'higher-T') and abs(T - prev[0]) <= 1000.5 * eff_tolT:
             tags.append('history:just-outside-the-temperature-tolerance(1.1..1000 x)')
         if prev is not None and rel == 'other-composition' and np.max(np.abs(prev[1] - z)) <= 10.5 * eff_tolZ:
@@ -634,10 +645,14 @@ def run_lle(case, model_in, outs, failures, tags):
         if two:
             ar = activity_residual(s, idx, T)
             if ar is not None:
-                tags.append('activity-residual:' + MTAG[method] + (':<=2e-2' if ar[0] <= 2e-2 else ':>2e-2'))
+                size = 'binary' if len(idx) == 2 else 'multicomponent'
+                tags.append(f'activity-residual:{MTAG[method]}:{size}' + (':<=2e-2' if ar[0] <= 2e-2 else ':>2e-2'))
                 _stat('act', method, len(idx), path, rel, ar[0])
                 if ar[0] > 2e-2 and not custom_hit:
-                    sig = 'activity-residual:' + MTAG[method] + (':binary' if len(idx) == 2 else ':multicomponent')
+                    sig = f'activity-residual:{MTAG[method]}:{size}'
+                    # the listed optimiser limits have a size: a residual beyond it is another finding
+                    cap = RESIDUAL_CAP.get((method, size))
+                    if cap is not None and ar[0] > cap: sig += f':residual-above-{cap}'
                     if method == 'pseudo equilibrium' and not frozen_chain:
                         sig += ':K-is-not-the-frozen-initial-guess'     # not the documented defect
                     if path == 'cache' and rel in ('lower-T', 'other-composition'): sig += ':cache-of-' + rel
@@ -775,6 +790,7 @@ def run_sle(case, model_in, outs, failures, tags):
     emit('sle-reset', 'ok')
     tags.append('sle:' + ('dortmund' if th == 0 else 'ideal'))
     partial = False
+    pure_seen = False
     prev_kind = None
     for k in range(1, len(ops)):
         t = ops[k]; kv = kvs(t[2:])
@@ -839,9 +855,26 @@ def run_sle(case, model_in, outs, failures, tags):
             tags.append('sle:raised')
             break               # the object is in an undefined state (or the call cannot be made): the case ends
         xs = REC['x']
-        x_used = given if given is not None else (xs[-1] if xs else None)
+        sxs = REC['sx']
+        # the solubility "it computed" is what _solve_x RETURNED (T given: called once); what reaches _update_solubility
+        # must be that number
+        x_used = given if given is not None else (sxs[-1] if sxs else (xs[-1] if xs else None))
         s1, l1 = rows(m, 's', 'l')
         is_pure = (given is None and not xs)
+        if given is None and not is_pure:
+            if not sxs or xs[-1] != sxs[-1]:
+                failures.append({'signature': 'sle:solubility-used-is-not-the-one-computed', 'op_index': len(model_in),
+                                 'what': f'solute {solute}, T={T}: _solve_x returned {sxs[-1] if sxs else None}, the rows were '
+                                         f'updated with {xs[-1]}'})
+            if th == 1 and sxs:
+                from chemicals import solubility_eutectic
+                c_ = chemicals.tuple[si]
+                ref = solubility_eutectic(T, c_.Tm, c_.Hfus, c_.Cn.l(T), c_.Cn.s(T), 1.)
+                tags.append('sle:ideal-solubility-recomputed')
+                if abs(ref - sxs[-1]) > 1e-9 * abs(ref):
+                    failures.append({'signature': 'sle:computed-solubility-is-not-the-eutectic-one', 'op_index': len(model_in),
+                                     'what': f'ideal package, solute {solute}, T={T}: _solve_x returned {sxs[-1]}, '
+                                             f'chemicals.solubility_eutectic with gamma=1 gives {ref}'})
         model_in.append(line % ('-' if (given is not None or x_used is None) else fbits(x_used)))
         outs.append(f'pure={int(is_pure)} liq={fl(l1)} sol={fl(s1)}')
         op_index = len(model_in) - 1
@@ -861,6 +894,13 @@ def run_sle(case, model_in, outs, failures, tags):
             failures.append({'signature': 'sle:dissolved-outside-0-present', 'op_index': op_index,
                              'what': f'solute {solute}: dissolved {d}, present {present}, solid {s1[si]}'})
         only_solute = (nzs == [si])
+        if pure_seen and not only_solute and given is None: tags.append('sle:mixture-call-after-a-pure-solute-call')
+        if is_pure and not only_solute:
+            failures.append({'signature': 'sle:pure-solute-branch-on-a-mixture', 'op_index': op_index,
+                             'what': f'{[chemicals.IDs[i] for i in nzs]} are present, yet sle({solute!r}, T={T}) used the melting-point '
+                                     f'rule of a pure solute (no solubility computed): liquid {d}, solid {s1[si]}, Tm of {solute} '
+                                     f'{Tm} (an earlier call on this stream was made on a pure solute)'})
+        if is_pure: pure_seen = True
         if x_used is not None and not is_pure:
             Fl = l1.sum()
             xl = d / Fl if Fl else 0.
@@ -970,10 +1010,13 @@ def gen_lle(rng, method_i):
     lvl = (rng.choice([1e-6, 1e-5, 1e-4]) * rng.uniform(0.5, 1.0) / sum(flows.values())) if tiny else 1.0
     ftok = lambda d: ','.join(f'{i}:{v * lvl!r}' for i, v in sorted(d.items()))
     tolT = '-' if rng.random() < 0.9 else rng.choice(['0.5', '2.0'])
-    ops = [f'lle new method={method_i} tolT={tolT} tolZ=- flows={ftok(flows)}']
+    tolZ = '-' if rng.random() < 0.92 else rng.choice(['0.0001', '0.001'])
+    ops = [f'lle new method={method_i} tolT={tolT} tolZ={tolZ} flows={ftok(flows)}']
     tops = ['-'] + names + [x for x in LNAMES if x not in names][:1]
     top = rng.choice(tops)
     T = round(rng.uniform(285, 355), 2)
+    if tolT != '-': T = round(T * 4) / 4        # quarter kelvins: a step of exactly tolT is then exact in binary64
+    tZ = DEF_TOLZ if tolZ == '-' else float(tolZ)
     h = rng.choice([0, 1, 1, 2, 2, 3, 4])
     for c in range(h + 1):
         last = c == h
@@ -984,7 +1027,7 @@ def gen_lle(rng, method_i):
             def nudge_z(f):
                 # change one flow so that the largest change of a mole fraction is f x the composition tolerance
                 i = rng.choice(sorted(flows)); tot = sum(flows.values()); zi = flows[i] / tot
-                flows[i] = flows[i] * (1 + rng.choice([-1, 1]) * f * DEF_TOLZ / (zi * (1 - zi)))
+                flows[i] = flows[i] * (1 + rng.choice([-1, 1]) * f * tZ / (zi * (1 - zi)))
             sc = rng.random()
             if sc < 0.18:                                   # a legitimate cache hit: T and z within the tolerances
                 T = near_T()
@@ -997,7 +1040,7 @@ def gen_lle(rng, method_i):
                     flows = {i: v * kk for i, v in flows.items()}
                     ops.append(f'lle scale k={kk!r}')
             elif sc < 0.30:                                 # just outside the temperature tolerance, same composition
-                T = T + rng.choice([-1, 1]) * rng.choice([1.1, 3, 10, 100, 1000]) * tT
+                T = T + rng.choice([-1, 1]) * rng.choice([1.1, 3, 10, 100, 1000] + ([1.0, 1.0] if tolT != '-' else [])) * tT
                 T = min(355., max(285., T))
             elif sc < 0.46:                                 # colder, same composition
                 T = max(285., round(T - rng.uniform(8, 60), 2))
@@ -1022,7 +1065,12 @@ def gen_lle(rng, method_i):
                 if rng.random() < 0.5: T = near_T()
                 else: T = round(rng.uniform(285, 355), 2)
                 cand = [x for x in LNAMES if LNAMES.index(x) not in flows]
-                if cand and len(flows) < 5 and rng.random() < 0.6:
+                drop = [i for i in flows if LNAMES[i] not in ('Water', partner)]
+                if cand and drop and rng.random() < 0.35:
+                    # one chemical is replaced by another: the same number of chemicals, another set
+                    j = rng.choice(drop); v = flows.pop(j)
+                    flows[LNAMES.index(rng.choice(cand))] = v if rng.random() < 0.5 else rflow(rng)
+                elif cand and len(flows) < 5 and rng.random() < 0.6:
                     flows[LNAMES.index(rng.choice(cand))] = rflow(rng)
                 else:
                     drop = [i for i in flows if LNAMES[i] not in ('Water', partner)]
@@ -1081,7 +1129,13 @@ def gen_sle(rng):
             if rng.random() < 0.25:
                 ops.append(rng.choice(['sle phases set=gls', 'sle phases set=sLl', 'sle phases set=ls', 'sle phases set=gLls',
                                        'sle touch kind=vle', 'sle touch kind=lle', 'sle touch kind=sle']))
-            if rng.random() < 0.2:
+            if rng.random() < 0.22:
+                # another solute joins the stream (as a solid or dissolved) and may become the one asked for
+                o2 = rng.choice([x for x in SOLUTES if x != solute])
+                which = 'sol' if rng.random() < 0.6 else 'liq'
+                ops.append(f'sle set {which}={ix(o2)}:{rflow(rng)!r}')
+                (sol if which == 'sol' else liq)[ix(o2)] = 1.
+            if rng.random() < 0.3:
                 others = [SNAMES[i] for i in list(liq) + list(sol) if SNAMES[i] in SOLUTES]
                 if others: solute = rng.choice(others)
         T = round(rng.uniform(250, 450), 2)
@@ -1140,6 +1194,10 @@ def corpus():
               'sle call solute=Naphthalene T=370.0 given=-'], {'kind': 'sle'}),
         Case(['sle new thermo=0 liq=0:8.0,6:3.0 sol=-', 'sle call solute=Phenol T=300.0 given=0.2', 'sle touch kind=vle',
               'sle call solute=Phenol T=280.0 given=0.01', 'sle touch kind=lle', 'sle call solute=Phenol T=290.0 given=-'],
+             {'kind': 'sle'}),
+        # a pure-solute call, then a second solute joins and is asked for (the pure-solute mode must be left)
+        Case(['sle new thermo=0 liq=7:4.0 sol=-', 'sle call solute=BenzoicAcid T=320.0 given=-', 'sle set sol=4:2.5',
+              'sle call solute=Tetradecanol T=290.0 given=-', 'sle set liq=1:6.0', 'sle call solute=BenzoicAcid T=340.0 given=-'],
              {'kind': 'sle'}),
         # SLE: docstring cases
         Case(['sle new thermo=0 liq=2:10.0,4:30.0 sol=-', 'sle call solute=Tetradecanol T=300.0 given=-',
